@@ -2,6 +2,7 @@ import Ptk.Proto
 import Ptk.Model.C12
 import Ptk.Model.C12Orig
 import Ptk.Model.C12Tree
+import Ptk.Model.C12Session
 open Ptk Ptk.Proto Ptk.C12
 
 /-- `N` or a natural number -/
@@ -195,6 +196,41 @@ def rootTag : Node → Tag
   | .win id _ _ => .user id
   | _ => .user 0
 
+/-! one split object, several calls: `sess h|v k (al done avail <spec pad> n (id <spec>)*)^k` -/
+
+def decIdSpecs : Nat → List String → Option (List (Nat × Dim) × List String)
+  | 0, rest => some ([], rest)
+  | n + 1, id :: rest => do
+    let id ← decNat id
+    let (sp, rest) ← decSpec rest
+    let d ← specDim sp
+    let (more, rest) ← decIdSpecs n rest
+    pure ((id, d) :: more, rest)
+  | _, _ => none
+
+def decCalls : Nat → List String → Option (List Call × List String)
+  | 0, rest => some ([], rest)
+  | k + 1, al :: done :: avail :: rest => do
+    let al ← decAlign al
+    let done ← decBool done
+    let avail ← decNat avail
+    let (sp, rest) ← decSpec rest
+    let pad ← specDim sp
+    match rest with
+    | n :: rest =>
+      let (cs, rest) ← decIdSpecs (← decNat n) rest
+      let (more, rest) ← decCalls k rest
+      pure ({ ids := cs.map (·.1), al := al, pad := pad, dims := cs.map (·.2), avail := avail,
+              done := done } :: more, rest)
+    | [] => none
+  | _, _ => none
+
+instance : BEq Outcome := ⟨fun a b => decide (a = b)⟩
+
+partial def sessionUntilAnswer (f : Nat → List Outcome) (fuel : Nat) : List Outcome :=
+  let r := f fuel
+  if r.any (· == .hang) && fuel ≤ 2 ^ 26 then sessionUntilAnswer f (2 * fuel) else r
+
 def handle : List String → String
   | ["dim", a, b, c, d] =>
     match decSpec [a, b, c, d] with
@@ -243,6 +279,17 @@ def handle : List String → String
     | some done, some avail, some (some r, []) => runDivideOrigBounded r avail done
     | some _, some _, some (none, []) => "err:ValueError"
     | _, _, _ => "bad-op"
+  | "sess" :: dir :: k :: rest =>
+    match decNat k with
+    | some k =>
+      match decCalls k rest, fillerDim (dir == "h") with
+      | some (calls, []), some filler =>
+        let start := calls.foldl (fun m c => Nat.max m
+          (fuelFor (allChildren c.al filler c.pad c.dims) c.avail)) 64
+        " ; ".intercalate ((sessionUntilAnswer
+          (fun fuel => runSession fuel (dir == "h") filler none calls) start).map encOutcome)
+      | _, _ => "bad-op"
+    | none => "bad-op"
   | "tree" :: x :: y :: w :: h :: rest =>
     match decNats [x, y, w, h], parseNode rest with
     | some [x, y, w, h], some (n, []) =>
